@@ -17,23 +17,35 @@ void sc_schema(int ncols, Outcome& out) {
     carquet_error_t err = CARQUET_ERROR_INIT; memset(err.message, 0x7F, sizeof err.message);
     carquet_schema_t* s = cq::schema_create(&err);
     if (!s) { exec::check_error_struct(err, "schema_create"); out.error_reported = true; return; }
-    int added = 0;
+    // a failed add is reported and skipped; the caller carries on with the remaining columns (the failure is transient),
+    // and every add that reported success must have exactly its fault-free effect
+    std::vector<int> ok_cols;
     for (int i = 0; i < ncols; i++) {
         std::string name = "col" + std::to_string(i);
         carquet_status_t st = cq::schema_add_column(s, name.c_str(), (carquet_physical_type_t)gen::WRITABLE[i % 7], nullptr, (carquet_field_repetition_t)(i % 2), gen::WRITABLE[i % 7] == T_FLBA ? 5 : 0);
-        if (st != CARQUET_OK) { out.error_reported = true; break; }
-        added++;
-        if (i % 17 == 16) { int32_t g = cq::schema_add_group(s, ("g" + std::to_string(i)).c_str(), CARQUET_REPETITION_OPTIONAL, 0); if (g < 0) { out.error_reported = true; break; } }
+        if (st != CARQUET_OK) out.error_reported = true; else ok_cols.push_back(i);
+        if (i % 17 == 16) { int32_t g = cq::schema_add_group(s, ("g" + std::to_string(i)).c_str(), CARQUET_REPETITION_OPTIONAL, 0); if (g < 0) out.error_reported = true; }
     }
-    // whatever was added successfully must be intact
-    SIM_CHECK(carquet_schema_num_columns(s) == added, "alloc.schema_corrupted", "schema reports %d columns after %d successful add_column calls", carquet_schema_num_columns(s), added);
-    for (int i = 0; i < added; i++) {
+    if (out.error_reported && !ok_cols.empty()) SIM_COUNT("probe.schema_built_on_after_failed_add");
+    SIM_CHECK(carquet_schema_num_columns(s) == (int32_t)ok_cols.size(), "alloc.schema_corrupted", "schema reports %d columns after %zu successful add_column calls", carquet_schema_num_columns(s), ok_cols.size());
+    for (size_t k = 0; k < ok_cols.size(); k++) {
+        int i = ok_cols[k];
         std::string name = "col" + std::to_string(i);
-        const char* got = nullptr;
         int32_t idx = carquet_schema_find_column(s, name.c_str());
-        SIM_CHECK(idx == i, "alloc.schema_corrupted", "find_column('%s') returned %d after an allocation failure elsewhere", name.c_str(), idx);
-        (void)got;
+        SIM_CHECK(idx == (int32_t)k, "alloc.schema_corrupted", "find_column('%s') returned %d, it is leaf %zu (an allocation failed during an earlier or later add)", name.c_str(), idx, k);
     }
+    // element accessors of every leaf: name, type and levels as added
+    { size_t k = 0; int32_t ne = carquet_schema_num_elements(s);
+      for (int32_t e = 1; e < ne; e++) {
+        const carquet_schema_node_t* nd = carquet_schema_get_element(s, e);
+        SIM_CHECK(nd != nullptr, "alloc.schema_corrupted", "element %d of %d is NULL", e, ne);
+        if (!carquet_schema_node_is_leaf(nd)) continue;
+        SIM_CHECK(k < ok_cols.size(), "alloc.schema_corrupted", "more leaf elements than successful add_column calls");
+        int i = ok_cols[k++];
+        SIM_CHECK(("col" + std::to_string(i)) == carquet_schema_node_name(nd) && (int)carquet_schema_node_physical_type(nd) == gen::WRITABLE[i % 7] && (int)carquet_schema_node_repetition(nd) == i % 2 && carquet_schema_node_max_def_level(nd) == i % 2,
+                  "alloc.schema_corrupted", "leaf element %d: name '%s' type %d repetition %d max_def %d, added as col%d type %d repetition %d", e, carquet_schema_node_name(nd), (int)carquet_schema_node_physical_type(nd), (int)carquet_schema_node_repetition(nd), (int)carquet_schema_node_max_def_level(nd), i, gen::WRITABLE[i % 7], i % 2);
+      }
+      SIM_CHECK(k == ok_cols.size(), "alloc.schema_corrupted", "%zu leaf elements, %zu successful add_column calls", k, ok_cols.size()); }
     cq::schema_free(s);
 }
 
@@ -50,7 +62,9 @@ void sc_read(const validfile::VF& vf, const std::string& path, int mode, Outcome
     const Table& t = vf.table;
     SIM_CHECK(carquet_reader_num_columns(o->r) == (int32_t)t.cols.size() && carquet_reader_num_row_groups(o->r) == (int32_t)t.rgs.size(), "alloc.metadata_wrong", "open succeeded under allocation failure but metadata differs");
     for (size_t g = 0; g < t.rgs.size(); g++) for (size_t c = 0; c < t.cols.size(); c++) {
-        exec::ReadChunk rc = exec::read_chunk_whole(o->r, (int)g, (int)c, t.cols[c].type, t.cols[c].tlen, t.cols[c].max_def, (int64_t)t.rgs[g].cols[c].entries());
+        // the caller keeps reading after a failed call: the failure is transient (one allocation), so what later calls deliver must continue the sequence without a hole
+        exec::ReadChunk rc = exec::read_chunk_whole(o->r, (int)g, (int)c, t.cols[c].type, t.cols[c].tlen, t.cols[c].max_def, (int64_t)t.rgs[g].cols[c].entries(), 2);
+        if (rc.errors) SIM_COUNT("probe.read_continued_after_failed_call");
         if (rc.ok) exec::compare_chunk(rc, t.rgs[g].cols[c], t.cols[c], exec::mode_name(mode), (int)g, (int)c);
         else { out.error_reported = true; exec::compare_chunk_prefix(rc, t.rgs[g].cols[c], t.cols[c], exec::mode_name(mode), (int)g, (int)c); }
         // skip path allocates a scratch buffer: it may skip fewer rows on failure but must stay consistent
@@ -158,7 +172,7 @@ namespace sim {
 void register_c19() {
     Property p;
     p.id = "C19"; p.level = "fault_enumeration";
-    p.rule = "per seeded scenario (schema build with capacity growth; write of a small multi-type nullable table with a seeded history per codec, path or FILE*; open + metadata + whole-chunk reads + skip + statistics in fread/mmap/buffer on a peer- or carquet-written file; batch read in each transport) a fault-free dry run counts the K tracked allocation requests (carquet, zlib and zstd requests made inside API calls, numbered by the allocator ledger), then request k fails for EVERY k in 0..K-1 (for K > 800: the first and last 200 and an even sample of about 400 in between), plus every fopen returning NULL and ZSTD_createDCtx returning NULL; thorough tier adds seeded multi-failure runs (each request fails with probability p); oracle per fault point: no sanitizer report, an error is reported by some call or else the effect equals the fault-free run (identical file bytes / identical values), data delivered before an error is a correct prefix, every handle can still be closed/freed/aborted, ledger empty; after the first error the writer is aborted (odd k) or closed (even k); one evaluation = one fault point";
+    p.rule = "per seeded scenario (schema build with capacity growth where a failed add is skipped and the caller carries on adding; write of a small multi-type nullable table with a seeded history per codec, path or FILE*; open + metadata + whole-chunk reads + skip + statistics in fread/mmap/buffer on a peer- or carquet-written file; batch read in each transport) a fault-free dry run counts the K tracked allocation requests (carquet, zlib and zstd requests made inside API calls, numbered by the allocator ledger), then request k fails for EVERY k in 0..K-1 (for K > 800: the first and last 200 and an even sample of about 400 in between), plus every fopen returning NULL and ZSTD_createDCtx returning NULL; thorough tier adds seeded multi-failure runs (each request fails with probability p); oracle per fault point: no sanitizer report, an error is reported by some call or else the effect equals the fault-free run (identical file bytes / identical values), data delivered before an error is a correct prefix, a column reader that is read on after a failed call delivers the continuation of the sequence without a hole, a batch reader may be asked for the next batch again after an error, every handle can still be closed/freed/aborted, ledger empty; after the first error the writer is aborted (odd k) or closed (even k); one evaluation = one fault point";
     p.quick_runs = 4000; p.thorough_runs = 200000;
     p.run = run_c19; p.recheck = 128;
     p.assumptions = {"allocations made by a per-thread ZSTD decompression context (process lifetime) are not numbered fault sites; its creation is (ZSTD_createDCtx -> NULL)",
